@@ -31,6 +31,8 @@ pub struct BeCfg {
     pub pfeatures: u64,
     pub queues_per_thread: Vec<u64>,
     pub exit_events: bool,
+    /// id of the barrier listener (default num_queues + 1)
+    pub barrier_id: Option<u64>,
 }
 
 impl Default for BeCfg {
@@ -42,6 +44,7 @@ impl Default for BeCfg {
             pfeatures: 0x3f_ffff & !(1 << 8) & !(1 << 12), // everything but PAGEFAULT, INFLIGHT_SHMFD
             queues_per_thread: vec![0xffff_ffff],
             exit_events: true,
+            barrier_id: None,
         }
     }
 }
@@ -148,7 +151,7 @@ impl<V> Be<V> {
         })
     }
     pub fn barrier_id(&self) -> u64 {
-        self.cfg.num_queues as u64 + 1
+        self.cfg.barrier_id.unwrap_or(self.cfg.num_queues as u64 + 1)
     }
     pub fn events(&self) -> Vec<Event> {
         self.st.lock().unwrap().events.clone()
@@ -373,6 +376,47 @@ impl<V: VringT<GM> + Clone + Send + Sync + 'static> Fx<V> {
             drop(d);
         }
         let _ = std::fs::remove_file(&self.path);
+    }
+}
+
+/// (state letter, name) of every thread of this process
+pub fn thread_states() -> Vec<(char, String)> {
+    let mut v = Vec::new();
+    if let Ok(rd) = std::fs::read_dir("/proc/self/task") {
+        for e in rd.flatten() {
+            if let Ok(stat) = std::fs::read_to_string(e.path().join("stat")) {
+                // pid (comm) S ...
+                if let (Some(a), Some(b)) = (stat.find('('), stat.rfind(')')) {
+                    let name = stat[a + 1..b].to_string();
+                    let st = stat[b + 1..].trim_start().chars().next().unwrap_or('?');
+                    v.push((st, name));
+                }
+            }
+        }
+    }
+    v
+}
+
+impl<V: VringT<GM> + Clone + Send + Sync + 'static> Fx<V> {
+    /// Teardown that cannot hang the harness: the drop runs in a helper thread.  Err(..) when the
+    /// drop has not completed after `secs` seconds while every worker thread is asleep (a worker
+    /// that does not take its exit event); the helper thread is leaked in that case.
+    pub fn teardown_checked(self, secs: u64) -> Result<(), String> {
+        let h = std::thread::Builder::new().name("fx_teardown".into()).spawn(move || self.teardown()).map_err(|e| e.to_string())?;
+        let deadline = Instant::now() + Duration::from_secs(secs);
+        while !h.is_finished() {
+            if Instant::now() > deadline {
+                let ts = thread_states();
+                let workers: Vec<_> = ts.iter().filter(|(_, n)| n.starts_with("vring_worker")).collect();
+                return Err(format!(
+                    "dropping the daemon did not complete within {secs}s; worker threads still present: {:?}",
+                    workers
+                ));
+            }
+            std::thread::sleep(Duration::from_millis(1));
+        }
+        let _ = h.join();
+        Ok(())
     }
 }
 
